@@ -69,14 +69,19 @@ func (app *AppData) Pack(buffer []byte) {
 	}
 
 	buffer[0] = byte(dataLength)
+	buffer[1] = byte(app.Command>>2) & 3
 
 	if app.Numbered {
 		buffer[1] |= 1<<6 | (app.SeqNumber&15)<<2
 	}
 
-	buffer[1] |= byte(app.Command>>2) & 3
+	data := app.Data
+	if len(data) > 255 {
+		data = data[:255]
+	}
 
-	copy(buffer[2:], app.Data)
+	buffer[2] = 0
+	copy(buffer[2:], data)
 
 	buffer[2] &= 63
 	buffer[2] |= byte(app.Command&3) << 6
